@@ -38,7 +38,7 @@ VARIABLES l,        \* next trace line
           log,      \* abstract log: sequence of digests (hex)
           hmap,     \* digest -> version as the hyper tree must hold it
           hroot,    \* HRoot(hmap), computed once per insertion
-          hyps,     \* hyper root carried by the snapshot of each version (index v+1)
+          hyps,     \* hyper root carried by the snapshots: one entry [lo, hi, r] per inserted bulk (versions lo..hi-1)
           reopened, \* the store was closed and reopened during this run
           viol      \* set of "<property>|<line>|<what>"
 
@@ -88,7 +88,7 @@ StepAdd3(log2, hmap2, hr2) ==
   /\ log' = log2
   /\ hmap' = hmap2
   /\ hroot' = hr2
-  /\ hyps' = hyps \o [i \in 1..Len(Ev.bulk) |-> hr2]
+  /\ hyps' = Append(hyps, [lo |-> Len(log), hi |-> Len(log2), r |-> hr2])   \* per bulk, not per version: TLC normalises every value of every state
   /\ viol' = viol \cup Fails(IF Ev.a = "add" THEN AddChecks(Ev, log2, hr2) ELSE AddBigChecks(Ev, log2, hr2))
   /\ UNCHANGED reopened
 StepAdd2(log2, hmap2) == StepAdd3(log2, hmap2, HRoot(hmap2))
@@ -201,7 +201,7 @@ AdvChecks(e) ==
   LET wire == [exists |-> e.exists, actual |-> e.actual, query |-> e.query, key |-> e.key,
                hyper |-> PathTerms(e.hyper), history |-> PathTerms(e.history)]
       histRoot == Root(log, e.histv)
-      hypRoot  == hyps[e.hypv + 1]
+      hypRoot  == hyps[CHOOSE i \in 1..Len(hyps) : hyps[i].lo < e.hypv + 1 /\ e.hypv + 1 <= hyps[i].hi].r
       specInt  == DigestVerifyIntended(wire, e.d, histRoot, hypRoot)
   IN
   (IF e.res \in {"panic", "timeout"}
